@@ -158,7 +158,7 @@ impl Prop for C06 {
         "model_checking"
     }
     fn rule(&self, _t: Tier) -> String {
-        "(a) every string of C01's character-class and line-template spaces (full input tries; states = strings) and C01's documents with one token stretched to the limits of the narrow integer types is read by both readers and, when both accept, the paragraphs / names / non-blank value lines are compared, as is lossy::Paragraph::from_str; (b) every C03 document (<= k layout deviations per skeleton) must be accepted by both and read identically; (c) every single-line corruption (junk line inserted, colon deleted, indentation removed) of every k<=1 document: where both readers still accept, they must agree; (d) every k<=1 document (k<=2 on the one- and two-field skeletons) with the terminator of one line (each in turn) replaced by a bare CR or by CR LF, and with all terminators replaced by CR; non-trivial = distinct case accepted by both readers with at least one field".into()
+        "(a) every string of C01's character-class and line-template spaces (full input tries; states = strings) C01's documents with one token stretched to the limits of the narrow integer types, C01's witness strings (every ASCII character in every lexer mode) and every field-name character is read by both readers and, when both accept, the paragraphs / names / non-blank value lines are compared, as is lossy::Paragraph::from_str; (b) every C03 document (<= k layout deviations per skeleton) must be accepted by both and read identically; (c) every single-line corruption (junk line inserted, colon deleted, indentation removed) of every k<=1 document: where both readers still accept, they must agree; (d) every k<=1 document (k<=2 on the one- and two-field skeletons) with the terminator of one line (each in turn) replaced by a bare CR or by CR LF, and with all terminators replaced by CR; non-trivial = distinct case accepted by both readers with at least one field".into()
     }
     fn bounds(&self, t: Tier) -> Value {
         json!({"string_spaces": deb822_space(t).describe(), "documents": "C03 generator, same k per skeleton"})
@@ -176,6 +176,18 @@ impl Prop for C06 {
                 // one token of every kind stretched to the limits of the narrow integer types
                 for s in crate::props::c01::long_token_docs() {
                     f(&C06Case::Str(StrCase { s, fresh: false }));
+                }
+                // every ASCII character and the sample of non-ASCII ones in every lexer mode (C01's witness strings), and every
+                // field-name character (C03's clause): the lossy reader shares the lexer but not the parser
+                for s in crate::props::c01::witness_strings() {
+                    f(&C06Case::Str(StrCase { s, fresh: false }));
+                }
+                for cp in 33u32..127 {
+                    let ch = char::from_u32(cp).unwrap();
+                    if ch != ':' {
+                        f(&C06Case::Str(StrCase { s: format!("X{}y: v\nOther: w\n", ch), fresh: false }));
+                        f(&C06Case::Str(StrCase { s: format!("k{}: v\n w\n\n{}k: x\n", ch, ch), fresh: false }));
+                    }
                 }
             }
             explore_strs(&sp, shard, &mut |c| f(&C06Case::Str(c.clone())));
